@@ -327,8 +327,10 @@ class Asm:
         asynchronous abort, or writes a system register (the markers ['toggle', key, bit] / ['xor', key, mask] are resolved against the case's state)"""
         rng = self.rng
         r = rng.random()
-        if r < 0.2:
+        if r < 0.12:
             return 'swap_registers'
+        if r < 0.2:
+            return 'swap_cpsr'
         if r < 0.3:
             return 'take_data_abort'
         cands = [['toggle', 'sctlr', 13], ['toggle', 'sctlr', 13], ['toggle', 'sctlr', 1], ['toggle', 'sctlr', 25], ['toggle', 'sctlr', 30], ['toggle', 'sctlr', 27],
@@ -623,6 +625,8 @@ def shard_history(plan_ref, seed, examples):
                     st_[k] = nxt
             flip = 1 << rng.choice((26, 25, 10, 11, 12, 13, 14, 15, 16, 17, 18, 19, 9, 8, 7, 6, 27, 28, 29, 30, 31, 0, 1, 2, 3))
             v = st_['cpsr'] ^ flip ^ ((1 << rng.randrange(32)) if rng.random() < 0.3 else 0)
+            if rng.random() < 0.15:
+                v = st_['cpsr']                # the SPSR equals the CPSR: a return that changes nothing is still a return
             v = (v & ~((1 << 24) | (1 << 5))) | ((1 if thumb else 0) << 5)
             if not thumb:
                 v &= ~0x0600FC00
@@ -646,7 +650,7 @@ def shard_history(plan_ref, seed, examples):
         if scen == 'mix' and rng.random() < 0.35:
             inject = {str(rng.randrange(1, max(2, len(prog)))): rng.choice(INJECT) for _ in range(rng.randrange(1, 3))}
         if scen in ('mix', 'rwr', 'residue') and rng.random() < 0.15:
-            inject.setdefault(str(rng.randrange(1, max(2, len(prog)))), 'swap_registers')
+            inject.setdefault(str(rng.randrange(1, max(2, len(prog)))), rng.choice(('swap_registers', 'swap_cpsr')))
         if scen in ('monitor', 'embedder') and pmsa and not (st_['sctlr'] & 1) and rng.random() < 0.7:
             # MPU on: everything read/write, region 1 over the data device (its attributes are what the embedder changes)
             nreg = gen.DEFAULT_MPU_REGIONS
